@@ -179,6 +179,33 @@ def run(ctx):
     R.ob(expiry is not None and expiry[1] == 10 and any("MAX_FUTURE_TRANSACTION_BLOCKS" in c for c in expiry[2].lin.consts), "GUARD", ct.where(),
          "GUARD|expiry|window", "a parked transaction expires iff `%s`; expected `parked - block + 10 <= 0`" % (expiry[2].text(role2) if expiry else "absent"),
          sample={"rule": "GUARD", "site": "clear_txpool", "row": expiry[2].text(role2) if expiry else None})
+    # "otherwise it is dropped": the sweep looks at *every* pool entry - the pool is ordered by (sender, nonce), not by age, so
+    # stopping at the first entry that is still inside its window leaves older entries behind it.  A hand-written loop that
+    # holds the removal leaves only when its iterator is exhausted or an error is propagated
+    import looprule as _LR
+    n_sweep = 0
+    eb_ct = set(error_blocks(ct))
+    for (h_, body_, _bk) in _LR.natural_loops(ct):
+        if not any(c.bb in body_ for c in rm):
+            continue
+        inner = [b2 for (h2, b2, _k2) in _LR.natural_loops(ct) if h2 != h_ and h2 in body_]
+        n_sweep += 1
+        for b_ in sorted(body_):
+            if ct.is_cleanup(b_):
+                continue
+            for sx in ct.succ(b_):
+                if sx in body_ or ct.is_cleanup(sx):
+                    continue
+                t_ = ct.term(b_)
+                exhausted = False
+                if t_["k"] == "switch":
+                    dd = origin(ct, t_["discr"])
+                    exhausted = dd[0] == "discr" and any(x[1].split("::")[-1] in ("next", "next_back") for x in calls_in(dd))
+                is_err = sx in eb_ct or _leads_to_error_only(ct, sx)
+                R.ob(exhausted or is_err, "LOOP", "%s:%s" % (ct.loc["f"], (t_.get("loc") or {}).get("l")), "LOOP|clear_txpool|sweep-complete",
+                     "the expiry sweep can leave its loop before the pool is exhausted (an exit that is neither the end of the iteration nor a "
+                     "propagated error): entries after that point are never examined", sample={"rule": "LOOP exits", "fn": "clear_txpool", "exit": "iterator exhausted" if exhausted else "error"})
+    R.counts["expiry_sweep_loops"] = n_sweep
     if drain and expiry:
         # complement: not(parked - block + 10 <= 0)  ==  block - parked - 10 + 1 <= 0
         R.ob(drain[1] == -(expiry[1]) + 1, "GUARD", fn.where(), "GUARD|drain-expiry|complement",
